@@ -171,7 +171,7 @@ func main() {
 		}
 		for _, l := range sortedKeys(res.Viol) {
 			v := res.Viol[l]
-			path := filepath.Join(verifDir, "replays", *prop, sanitize(res.Harness+"_"+l)+".json")
+			path := filepath.Join(outDir(), "replays", *prop, sanitize(res.Harness+"_"+l)+".json")
 			os.MkdirAll(filepath.Dir(path), 0755)
 			hc := findHarness(hs, res.Harness)
 			writeJSON(path, map[string]interface{}{"property": *prop, "harness": res.Harness, "pkg": hc.Pkg, "func": hc.Func, "label": l, "model": v.Model, "order": v.Order, "path": v.Path, "params": hc.Params, "native": hc.Native})
